@@ -49,6 +49,8 @@ MENU = [
     ('qrule-placeholder', 'start: a [B] c?\n?a: A | "(" start ")"\n!c: "c" "!"?\nA: "a"\nB: "b"\n', 'ab()c!', {}, None),
     ('big-130', big_grammar(130), 'abcd', {}, None),
     ('g-regex-flags', kw_grammar('', ''), 'abAB ', {'g_regex_flags': re.I}, None),       # re.IGNORECASE as a global flag
+    # every terminal is %declare'd (tokens come from elsewhere): the serialised form contains no terminal definition at all
+    ('declare-only', 'start: A B+\n%declare A B\n', 'a', {}, None),
     ('declare-postlex', 'start: (A | _X)+\nA: "a"\n%declare _X\n%ignore " "\n', 'a ', {}, None),
 ]
 for _s in ('', 'i'):
